@@ -238,3 +238,20 @@ Proof.
   split; [exact Hl|]. split; [vm_compute; discriminate|].
   unfold sem_ts. rewrite Ht. vm_compute. discriminate.
 Qed.
+
+(** * Java by-value comparison of two references *)
+
+Lemma z_eqb_sym_cmp : forall a b, z_cmp EQ a b = Z.eqb a b.
+Proof. reflexivity. Qed.
+
+Lemma java_objects_equals_sound : forall op v w a b x y,
+  (op = EQ \/ op = NE) -> comparable op v w ->
+  java_repr v (JRef a x) -> java_repr w (JRef b y) ->
+  sem_java_objects_equals (match op with NE => true | _ => false end) (JRef a x) (JRef b y)
+  = py_cmp op v w.
+Proof.
+  intros op v w a b x y Hop Hc Hv Hw. unfold comparable in Hc.
+  inversion Hv; subst; inversion Hw; subst; cbn in Hc |- *; try congruence;
+    destruct Hop as [-> | ->]; cbn in Hc |- *; try reflexivity.
+  all: destruct (Nat.eqb e e0) eqn:Ee; cbn in Hc |- *; try congruence; reflexivity.
+Qed.
